@@ -36,6 +36,13 @@ def _cases(draw):
                 p_choice_nolabel=0.05, settings="some", p_entities=0.0, p_choice_label_ref=0.08, p_custom_instance=0.15)
     g = gen.G(draw, prof)
     form = gen.build_form(draw, prof, g=g)
+    if g.lists and g.p("_", 0.12):
+        # an extra column spelled like a word the converter uses internally: a column like any other, spelling kept
+        cname = g.pick(["Parent", "Extra_Data", "PARENT", "Children", "Itemset", "Name2"])
+        lst = g.pick(g.lists)
+        for r in lst["rows"]:
+            if g.p("_", 0.8):
+                r[cname] = g.pick(["tx", "wa", "x1"])
     if g.lists and g.p("_", 0.15):
         lst = g.pick(g.lists)
         if len(lst["rows"]) >= 2:
